@@ -4,14 +4,19 @@ OUT=${1:-/tmp/revert_matrix.txt}; : > $OUT
 for sha in $(git -C /repo log --format=%h 924039f..HEAD); do
   S=$(mktemp -d /tmp/jvrev.XXXXXX)
   git clone -q --local /repo $S/r
-  ( cd $S/r && git -c user.email=a@b -c user.name=x revert --no-commit $sha >/dev/null 2>&1 ) || { echo "$sha CONFLICT" >> $OUT; rm -rf $S; continue; }
+  how=""
+  if ! ( cd $S/r && git -c user.email=a@b -c user.name=x revert --no-commit $sha >/dev/null 2>&1 ); then
+    # later commits touch the same lines: dev/hand_reverts/<sha>.diff re-introduces the defect on HEAD
+    ( cd $S/r && git revert --abort >/dev/null 2>&1; git checkout -q -- . && git apply /verif/dev/hand_reverts/$sha.diff ) || { echo "$sha CONFLICT" >> $OUT; rm -rf $S; continue; }
+    how=" (hand revert)"
+  fi
   hits=""
   for p in $(seq -w 1 20); do
     JV_EVIDENCE_DIR=$S/ev /venv/bin/python /verif/bin/check C$p --repo $S/r > $S/out.txt 2>&1; rc=$?
     [ $rc -eq 1 ] && hits="$hits C$p"
     [ $rc -eq 2 ] && hits="$hits C$p(err)"
   done
-  echo "$sha |$hits | $(git -C /repo log --format=%s -1 $sha)" >> $OUT
+  echo "$sha |$hits$how | $(git -C /repo log --format=%s -1 $sha)" >> $OUT
   rm -rf $S
 done
 cat $OUT
